@@ -112,6 +112,11 @@ func (*C13) Property() string { return "C13" }
 
 func (o *C13) Check(x *h.Exec, ev *h.Event) {
 	c := ev.Check
+	if x.S.Quiescent() {
+		if o.exact(x, ev) {
+			return
+		}
+	}
 	supported := map[lang.SemanticTokenType]bool{}
 	for _, t := range lang.SupportedSemanticTokenTypes {
 		supported[t] = true
